@@ -34,6 +34,34 @@
 (***************************************************************************)
 EXTENDS Naturals, Sequences, FiniteSets, TLC
 VARIABLE x
+
+(* ---- what the bindings vary besides input values ------------------------------------------------------------
+   The modules above quantify over inputs and operation sequences.  Six rounds of seeded changes showed that a change to
+   the code can also hide behind a dimension that is no input at all.  Each dimension the bindings vary is listed here with
+   the place that carries it (a constant or variable of a module, or - where it is a property of the replaying process
+   rather than of the library's state - a family of the harness) and the properties whose check varies it. *)
+Props == {"C01", "C02", "C03", "C04", "C05", "C06", "C07", "C08", "C09", "C10",
+          "C11", "C12", "C13", "C14", "C15", "C16", "C17", "C18", "C19", "C20"}
+ProfileDim == [dim |-> "build profile (debug / optimised: debug_assert!, overflow checks)", carrier |-> "Matrix.tla Profile; harness configuration nightly-release", props |-> Props]
+Dimensions == {
+  ProfileDim,
+  [dim |-> "features (default, serde+base64, nightly, nightly+simd_backend)",  carrier |-> "Matrix.tla Configs; harness configurations stable / nightly / simd", props |-> {"C01", "C02", "C03", "C04", "C05", "C07", "C09", "C10", "C11", "C12", "C13", "C16", "C17", "C18"}],
+  [dim |-> "container of the bytes (array, StackByteArray, Vec, heap, locked, locked read-only)", carrier |-> "Matrix.tla Containers; Codec.tla Holders; Untrusted.tla family vecheld", props |-> {"C01", "C02", "C03", "C04", "C05", "C07", "C08", "C10", "C11", "C13", "C16", "C18"}],
+  [dim |-> "size of the caller's output buffer (exact, longer, shorter, fixed)", carrier |-> "Aead.tla room; Untrusted.tla family fixed; Stream.tla presentation shortbuf", props |-> {"C01", "C02", "C03", "C04", "C17"}],
+  [dim |-> "what an output buffer held before the call", carrier |-> "harness: pre-filled buffers", props |-> {"C01", "C03", "C06", "C07", "C09", "C12", "C13"}],
+  [dim |-> "earlier calls on the same thread (caches, thread-locals, abandoned incremental states)", carrier |-> "harness: history-dependent call families, disturb()", props |-> {"C01", "C02", "C05", "C06", "C07", "C09", "C10", "C12"}],
+  [dim |-> "the object after a failure (rejected open, rejected pull, refused lock)", carrier |-> "Stream.tla RejectIsStutter; Protected.tla RefusalIsError / OthersUntouched; harness retry families", props |-> {"C01", "C02", "C03", "C17", "C19"}],
+  [dim |-> "fork()", carrier |-> "Rng.tla Fork; harness fork families (containers, allocator)", props |-> {"C11", "C15", "C18"}],
+  [dim |-> "panic unwinding", carrier |-> "harness PROT_MODE=unwind", props |-> {"C15"}],
+  [dim |-> "refused lock requests, failing OS random source, mlockall", carrier |-> "Protected.tla budget; Rng.tla FaultEntryPoints; harness interposer / seccomp", props |-> {"C11", "C14", "C15", "C19"}],
+  [dim |-> "address alignment of the input", carrier |-> "harness: inputs at offsets 1..7 of an aligned buffer", props |-> {"C07"}],
+  [dim |-> "allocation state of a Vec (spare capacity)", carrier |-> "harness: roomy Vecs", props |-> {"C01", "C16"}],
+  [dim |-> "trait implementations as routes (Clone, Default, Serialize, Debug, PartialEq, AsRef/AsMut, TryFrom)", carrier |-> "TypeState.tla routes; Api.tla; harness route tables", props |-> {"C06", "C16", "C18", "C20"}],
+  [dim |-> "the value of an error (its text)", carrier |-> "harness: error texts per entry point and length", props |-> {"C17"}] }
+\* every property's check varies the build profile, and every dimension is carried by something
+DimensionsSound == /\ ProfileDim.props = Props
+                   /\ \A d \in Dimensions : d.props \subseteq Props /\ d.props # {} /\ d.carrier # ""
+ASSUME DimensionsSound
 K == INSTANCE Kx WITH x <- x
 
 \* the root of a secret stream is (key, header): Stream.tla's `root`
